@@ -409,3 +409,31 @@ def rule_viewread(crate, file_suffix="numbat/src/list.rs"):
     out.analysed = {"read_sites": n_sites}
     out.floor("read_sites", n_sites, 3)
     return out
+
+
+def rule_listeq(crate, file_suffix="numbat/src/list.rs"):
+    """LISTEQ — list equality is decided by the elements only.  A short-cut on the identity of the shared storage
+    (`Arc::ptr_eq`) makes `==` observe sharing as soon as element equality is not reflexive (NaN): `let a = [NaN];
+    let b = a; a == b` is true while `[NaN] == [NaN]` is false."""
+    from hirlib import callee
+
+    out = RuleOut("LISTEQ", "list equality does not depend on whether two lists share their storage")
+    fns = [b for d, b in crate.hir.items() if crate.file_of(b).endswith(file_suffix) and d.endswith("::eq") and "NumbatList" in (b.get("impl_self") or "")]
+    if not fns:
+        out.error("anchor missing: <NumbatList as PartialEq>::eq")
+        return out
+    fn = fns[0]
+    f = crate.file_of(fn)
+    ids = [n for n in walk(fn["body"]) if n.get("k") == "Call" and (callee(n) or "").endswith("ptr_eq")]
+    elementwise = [n for n in walk(fn["body"]) if n.get("k") == "MethodCall" and n["name"] in ("all", "eq", "zip")]
+    if ids:
+        ff, ll = crate.loc(fn, ids[0])
+        out.violation("eq:identity-shortcut", ff, ll, "NumbatList::eq answers `true` from the identity of the shared allocation (Arc::ptr_eq) without comparing elements: for elements whose equality is not reflexive (NaN) the result of `==` depends on whether the two lists share storage, which immutable values must not reveal")
+    else:
+        out.ok("eq:identity-shortcut", f, fn["line"], "no storage-identity short-cut")
+    if elementwise:
+        out.ok("eq:elementwise", f, fn["line"], "elements are compared pairwise")
+    else:
+        out.violation("eq:elementwise", f, fn["line"], "NumbatList::eq does not compare the elements pairwise")
+    out.analysed = {"identity_tests": len(ids)}
+    return out
